@@ -15,7 +15,10 @@ def section(notes: str, k: int, word: str) -> str:
     return ""
 
 stored, skipped = [], []
-for kind, prefix, word, fname in (("mut", "r2", "Mutation", "mut"), ("ref", "nt", "Refactoring", "ref")):
+WAVES = {"2": (("mut", "r2", "Mutation", "mut", 3, 2), ("ref", "nt", "Refactoring", "ref", 0, 2)),
+         "3": (("mut", "r3", "Mutation", "mut", 6, 3), ("ref", "n3", "Refactoring", "ref", 3, 3))}
+wave = sys.argv[1] if len(sys.argv) > 1 else "2"
+for kind, prefix, word, fname, offset, rnd in WAVES[wave]:
     for P in [f"C{i:02d}" for i in range(1, 21)]:
         src = Path(f"/tmp/{prefix}_{P}/_seed")
         if not src.is_dir():
@@ -33,13 +36,13 @@ for kind, prefix, word, fname in (("mut", "r2", "Mutation", "mut"), ("ref", "nt"
             if not ok:
                 skipped.append((f"{prefix} {P}-{K}", f"confirmation negative: {d}"))
                 continue
-            dst = ROOT / "seeded" / (f"{P}-{3 + K}" if kind == "mut" else f"neutral/{P}-{K}")
+            dst = ROOT / "seeded" / (f"{P}-{offset + K}" if kind == "mut" else f"neutral/{P}-{offset + K}")
             dst.mkdir(parents=True, exist_ok=True)
             shutil.copy(diff, dst / "patch.diff")
             shutil.copy(demo, dst / "demo.py")
             files = sorted(set(re.findall(r"^\+\+\+ b/(\S+)", diff.read_text(), flags=re.M)))
             meta = {
-                "property": P, "seed": dst.name, "round": 2, "kind": "breaking" if kind == "mut" else "behaviour-preserving",
+                "property": P, "seed": dst.name, "round": rnd, "kind": "breaking" if kind == "mut" else "behaviour-preserving",
                 "base_commit": head, "files_touched": files,
                 "origin": "written by an independent sub-agent given only the property text and a scratch worktree",
                 ("needs_to_manifest" if kind == "mut" else "what_changed"): section(notes, K, word),
